@@ -67,23 +67,25 @@ def collector_table(ctx, rows):
     """the built-in model inside the collector binary (package main links every decoder package; any of them may touch
     ipfix.InfoModel at program initialisation) is the ipfix package's table - hence the shipped file's"""
     drv = ctx.go_build_test("vflow", ["vflow/infomodel_verif_test.go"])
-    out = os.path.join(ctx.subdir("imc"), "collector.ndjson")
-    rc, log, to = ctx.go_run(drv, "TestVerifCollectorInfoModel", env={"VERIF_OUT": out}, timeout=120)
-    if rc != 0 or to or not os.path.exists(out):
-        raise vlib.Infra("collector info-model dump failed: " + log[-1000:])
-    got = {(r["pen"], r["key"]): (r["id"], r["name"], r["type"]) for r in vlib.read_ndjson(out)}
     want = {(r["pen"], r["key"]): (r["id"], r["name"], r["type"]) for r in rows if r["src"] == "builtin"}
-    for k in got:
-        ctx.count(["collector", k[0], k[1]])
-    extra = sorted(set(got) - set(want))
-    missing = sorted(set(want) - set(got))
-    differ = sorted(k for k in set(got) & set(want) if got[k] != want[k])
-    if extra or missing or differ:
-        ctx.violation("the built-in information model inside the collector (package main, all decoders linked) is not the ipfix package's "
-                      "table, so it cannot agree with scripts/ipfix.elements: %d elements only in the collector %s, %d missing %s, %d differing %s"
-                      % (len(extra), extra[:6], len(missing), missing[:6], len(differ), differ[:6]),
-                      {"only_in_collector": [[k, got[k]] for k in extra[:20]], "missing": missing[:20], "differing": [[k, got[k], want[k]] for k in differ[:20]]},
-                      key="collector-table")
+    for traffic, when in ((0, "at start"), (1, "after it has decoded NetFlow v9 and IPFIX templates and records that use field types the model does not know")):
+        out = os.path.join(ctx.subdir("imc"), "collector%d.ndjson" % traffic)
+        rc, log, to = ctx.go_run(drv, "TestVerifCollectorInfoModel", env={"VERIF_OUT": out, "VERIF_TRAFFIC": traffic}, timeout=120)
+        if rc != 0 or to or not os.path.exists(out):
+            raise vlib.Infra("collector info-model dump failed: " + log[-1000:])
+        got = {(r["pen"], r["key"]): (r["id"], r["name"], r["type"]) for r in vlib.read_ndjson(out)}
+        for k in got:
+            ctx.count(["collector", traffic, k[0], k[1]])
+        extra = sorted(set(got) - set(want))
+        missing = sorted(set(want) - set(got))
+        differ = sorted(k for k in set(got) & set(want) if got[k] != want[k])
+        if extra or missing or differ:
+            ctx.violation("the built-in information model inside the collector (package main, all decoders linked), %s, is not the ipfix package's "
+                          "table, so it cannot agree with scripts/ipfix.elements: %d elements only in the collector %s, %d missing %s, %d differing %s"
+                          % (when, len(extra), extra[:6], len(missing), missing[:6], len(differ), differ[:6]),
+                          {"only_in_collector": [[k, got[k]] for k in extra[:20]], "missing": missing[:20], "differing": [[k, got[k], want[k]] for k in differ[:20]]},
+                          key="collector-table")
+            break
     ctx.extra["collector_table_elements"] = len(got)
     ctx.traces_validated += 1
 
